@@ -127,6 +127,25 @@ def watch_edit_during_failing_build_case(pr):
     return None
 
 
+def watch_failed_dep_late_requester_case(pr):
+    """watch mode: dep fails at once; `late` reaches it only through a long chain of aggregates, so its request arrives
+    after the failure - it must not be told that dep is ready"""
+    ts = {"dep": {"build": 'echo "f dep" >> "$ZLOG"\nexit 1'}, "late": {"dependencies": ["a299"], "build": logging_build("late")}}
+    prev = "dep"
+    for i in range(300):
+        ts["a%d" % i] = {"dependencies": [prev]}
+        prev = "a%d" % i
+    pr.write("zinoma.yml", yml(ts), record=False)
+    pr.files["zinoma.yml"] = "dep: build `exit 1`; a0 -> dep; a_i -> a_(i-1) (300 aggregates); late -> a299"
+    p = pr.spawn("--watch", "dep", "late")
+    if not pr.wait_for(lambda: "f dep" in pr.log(), WAIT):
+        return None
+    time.sleep(3.0)
+    if "s late" in pr.log():
+        return {"property": ["C01", "C07"], "expected": "late depends (through aggregates) on dep, whose build failed: it is never started", "observed": "log %s" % pr.log(), "output": pr.output_of(p)[-400:]}
+    return None
+
+
 # ---- C16 / C15 watcher filter -----------------------------------------------------------------------------
 
 def watcher_filter_case(pr):
@@ -354,6 +373,7 @@ def cases(seed):
         C("watch-chain", watch_chain_case, "dependency's rebuilt outputs re-run the consumer, clean tree at start"),
         C("watch-failure-keeps-watching", watch_failure_case, "failure in watch mode: reported, keeps watching"),
         C("watch-edit-during-failing-build", watch_edit_during_failing_build_case, "change during a failing build is not forgotten"),
+        C("watch-failed-dep-late-requester", watch_failed_dep_late_requester_case, "a late requester of a failed dependency is not acknowledged"),
         C("watcher-filter", watcher_filter_case, "irrelevant changes never trigger; unusual names do not stop the watcher; nested filtered path and removals trigger"),
         C("sigterm-during-build", signal_during_build_case(signal.SIGTERM, False), "SIGTERM during a 60 s build"),
         C("sigint-during-build", signal_during_build_case(signal.SIGINT, False), "SIGINT during a 60 s build"),
